@@ -197,6 +197,21 @@ func runExact(c *hlib.Ctx, n int) {
 			if c.Rng.Intn(2) == 0 {
 				u, v = float64(1+c.Rng.Intn(3))/8, float64(1+c.Rng.Intn(3))/8 // strictly inside
 			}
+			if c.Rng.Intn(5) == 0 {
+				// a hair (2^-28 .. 2^-36 in barycentric units, far above rounding: everything stays exact)
+				// outside or inside one of the three edges
+				h := math.Ldexp(1, -28-c.Rng.Intn(9)) * float64(1-2*c.Rng.Intn(2))
+				u, v = float64(1+c.Rng.Intn(3))/8, float64(1+c.Rng.Intn(3))/8
+				switch c.Rng.Intn(3) {
+				case 0:
+					u = h
+				case 1:
+					v = h
+				default:
+					v = 1 - u + h
+				}
+				c.Stat("trix.next-to-an-edge", 1)
+			}
 			tgt := t[0].Add(t[1].Sub(t[0]).Scale(u)).Add(t[2].Sub(t[0]).Scale(v))
 			o = originToward(c, tgt, d)
 		}
@@ -284,6 +299,12 @@ func runExact(c *hlib.Ctx, n int) {
 		if len(tris) > 0 && c.Rng.Intn(3) != 0 {
 			t := tris[c.Rng.Intn(len(tris))]
 			u, v := float64(1+c.Rng.Intn(2))/4, float64(1+c.Rng.Intn(2))/8
+			if c.Rng.Intn(4) == 0 {
+				// a hair inside the hypotenuse (in a box mesh: next to the diagonal two triangles share, so
+				// exactly one of them is hit)
+				v = 1 - u - math.Ldexp(1, -28-c.Rng.Intn(9))
+				c.Stat("joinx.next-to-the-hypotenuse", 1)
+			}
 			tgt := t[0].Add(t[1].Sub(t[0]).Scale(u)).Add(t[2].Sub(t[0]).Scale(v))
 			o = originToward(c, tgt, d)
 		}
